@@ -33,6 +33,15 @@ def supp (A : Arr) : List Nat :=
   let vars := (A.toList.drop 2).map (·.var)
   (List.range (vars.foldl max 0 + 1)).filter fun x => vars.contains x
 
+/-- pseudo-random valuations for diagrams too wide for a full truth table (same mixing as `Drive/C01.lean`) -/
+def sampleVal (n k : Nat) : Nat → Bool := fun j =>
+  let z := (k + 1) * 0x9E3779B97F4A7C15 % 2 ^ 64
+  let z := (z ^^^ (z >>> 29)) * 0xBF58476D1CE4E5B9 % 2 ^ 64
+  let z := (z ^^^ (z >>> 32))
+  j < n && (z >>> (j % 60)) % 2 == 1
+
+def samples : Nat := 4096
+
 def firstFail (xs : List (Option String)) : Option String := xs.findSome? id
 
 /-- `r` is a valid diagram over `m` variables, `r(v) = b(v ∘ g)` on all valuations of the first `N`
@@ -40,12 +49,21 @@ def firstFail (xs : List (Option String)) : Option String := xs.findSome? id
 def checkResult (b r : Arr) (m N : Nat) (g : Nat → Option Nat) : Option String :=
   firstFail [
     if wfoB r m then none else some "result-not-a-valid-diagram",
-    if N > maxTT then none else
+    if b.size != r.size then some "size-changed" else none,
+    if N > maxTT then
+      (if N > 4096 then none else
+        if (List.range samples).all fun k =>
+          let v := sampleVal N k
+          evalArr r v == evalArr b (fun x => match g x with | some y => (decide (y < N) && v y) | none => false)
+        then none else some "function-changed(sampled)")
+    else
       if (List.range (2 ^ N)).all fun i =>
         let v := valOfIndex N i
         evalArr r v == evalArr b (fun x => match g x with | some y => (decide (y < N) && v y) | none => false)
       then none else some "function-changed",
     if isCanon b && !isCanon r then some "canonicity-lost" else none ]
+
+def bigTag (b : Arr) : List String := if b.size > 65536 then ["big-operand"] else []
 
 def kindTag (obs : String) : String :=
   if obs == "panic" then "panic" else if obs == "none" then "none" else "ok"
@@ -70,7 +88,7 @@ def handle (key : String) (ins obs : List String) : Verdict :=
             checkResult b r nv (if max n nv ≤ maxTT then max n nv else n) (fun x => some x)]
         | none => if res == "panic" then none else some ("outcome:" ++ res)
       { agree := model == res, model, fail, nontrivial := valid && b.size > 2,
-        tags := ["setnv", kindTag res, inputTag b n] }
+        tags := ["setnv", kindTag res, inputTag b n] ++ bigTag b }
     | _, _ => Verdict.bad "args"
   | "C17.renvars", [bs, ms], [res] =>
     match parseArr? bs, parseMap? ms with
@@ -85,7 +103,7 @@ def handle (key : String) (ins obs : List String) : Verdict :=
         | some r => checkResult b r n n (fun x => some (applyMap π x))
         | none => if res == "panic" then none else some ("outcome:" ++ res)
       { agree := model == res, model, fail, nontrivial := valid && b.size > 2,
-        tags := ["renvars", kindTag res, inputTag b n] ++ (if m.any (·.1 == n) then ["key-num_vars"] else []) }
+        tags := ["renvars", kindTag res, inputTag b n] ++ (if m.any (·.1 == n) then ["key-num_vars"] else []) ++ bigTag b }
     | _, _ => Verdict.bad "args"
   | "C17.renvar", [bs, os, ns], [res] =>
     match parseArr? bs, os.toNat?, ns.toNat? with
@@ -99,7 +117,7 @@ def handle (key : String) (ins obs : List String) : Verdict :=
         | some r => checkResult b r n n (fun x => some (if x = old then new else x))
         | none => if res == "panic" then none else some ("outcome:" ++ res)
       { agree := model == res, model, fail, nontrivial := valid && b.size > 2,
-        tags := ["renvar", kindTag res, inputTag b n] }
+        tags := ["renvar", kindTag res, inputTag b n] ++ bigTag b }
     | _, _, _ => Verdict.bad "args"
   | "C17.transfer", [bs, ss, ts], [res] =>
     match parseArr? bs with
@@ -128,7 +146,7 @@ def handle (key : String) (ins obs : List String) : Verdict :=
           if res == "none" then (if expectSome then some "refused-a-transferable-Bdd" else none)
           else some ("outcome:" ++ res)
       { agree := model == res, model, fail, nontrivial := applicable && b.size > 2,
-        tags := ["transfer", kindTag res, if applicable then inputTag b n else "inapplicable"] }
+        tags := ["transfer", kindTag res, if applicable then inputTag b n else "inapplicable"] ++ bigTag b }
     | none => Verdict.bad "args"
   | _, _, _ => Verdict.bad ("key " ++ key)
 
